@@ -337,6 +337,7 @@ func checkProgram(ps emitbatch.ProgSpec, bt batch, ns *rig.NatsServer) *progResu
 			for li, lp := range bt.Legs {
 				checkService(prog, f, svc, gs, methods, lp[0], lp[1], bt.Calls, rng, ns, res, addV, li == 0)
 			}
+			scaledOut(prog, svc, gs, methods, []string{"binary", "compact", "json"}[int(ps.Seed>>4&0xffff)%3], rng, ns, res, addV)
 			largeReplies(prog, svc, gs, methods, []string{"binary", "compact", "json"}[int(ps.Seed>>8&0xffff)%3], rng, ns, res, addV)
 			afterOversizeReply(prog, svc, gs, methods, []string{"binary", "compact", "json"}[int(ps.Seed&0xffff)%3], rng, ns, res, addV)
 			if pf, parent := parentOf(prog, f, svc); parent != nil {
@@ -591,6 +592,93 @@ func largeReplies(prog *idl.Program, svc *idl.Service, gs *genreg.Service, metho
 }
 
 var largePhases, largeFailed int32
+var scaledPhases, scaledFailed int32
+
+// scaledOut: two FNatsServer instances serve one processor on one subject in
+// one queue group (the usual scaled-out deployment): the broker hands a
+// request to exactly one instance, so the handler still runs exactly once per
+// call (own, inherited and oneway methods alike).
+func scaledOut(prog *idl.Program, svc *idl.Service, gs *genreg.Service, methods []methodInfo, proto string, rng *rand.Rand, ns *rig.NatsServer, res *progResult, addV func(string, string, interface{})) {
+	if ns == nil || atomic.LoadInt32(&scaledFailed) >= 1 || atomic.LoadInt32(&scaledPhases) >= 4 || len(methods) == 0 {
+		return
+	}
+	atomic.AddInt32(&scaledPhases, 1)
+	inner := addV
+	addV = func(sig, what string, w interface{}) {
+		atomic.AddInt32(&scaledFailed, 1)
+		inner(sig, what, w)
+	}
+	exp := &expectation{calls: map[string]int{}, args: map[string][]interface{}{}, outcome: map[string][]interface{}{}, observed: make(chan string, 1024)}
+	recorder := func(iface, method string, args []interface{}) []interface{} {
+		fctx, _ := args[0].(frugal.FContext)
+		token := ""
+		if fctx != nil {
+			token = fctx.CorrelationID()
+		}
+		exp.mu.Lock()
+		exp.calls[token]++
+		exp.args[token] = append([]interface{}{method}, args[1:]...)
+		out := exp.outcome[token]
+		exp.mu.Unlock()
+		select {
+		case exp.observed <- token:
+		default:
+		}
+		return out
+	}
+	var proc frugal.FProcessor
+	func() {
+		defer func() { recover() }()
+		proc = gs.NewProcessor(gs.NewStub(recorder))
+	}()
+	if proc == nil {
+		return
+	}
+	leg, err := rig.StartRPCLeg("nats", proto, proc, ns, rig.LegOptions{NatsInstances: 2})
+	if err != nil {
+		res.Inconclusive = append(res.Inconclusive, fmt.Sprintf("leg nats/%s (two instances): %v", proto, err))
+		return
+	}
+	defer leg.Stop()
+	tr, err := leg.NewClient()
+	if err != nil {
+		res.Inconclusive = append(res.Inconclusive, fmt.Sprintf("client nats/%s (two instances): %v", proto, err))
+		return
+	}
+	client := reflect.ValueOf(gs.NewClient(frugal.NewFServiceProvider(tr, leg.PF)))
+	ct := client.Type()
+	legName := "nats/" + proto + "(two server instances, one queue group)"
+	for c := 0; c < 8; c++ {
+		mi := methods[rng.Intn(len(methods))]
+		var gm reflect.Value
+		for i := 0; i < ct.NumMethod(); i++ {
+			if norm(ct.Method(i).Name) == norm(mi.m.Name) {
+				gm = client.Method(i)
+			}
+		}
+		if !gm.IsValid() {
+			continue
+		}
+		token := fmt.Sprintf("%s-%s-scaled-%s-%d", svc.Name, mi.m.Name, proto, c)
+		one := runCall(prog, svc, mi, gm, token, legName, rng, exp, leg, res, addV)
+		if mi.m.Oneway && one == "oneway" {
+			// give a second instance the time to run the handler too before counting
+			time.Sleep(20 * time.Millisecond)
+			exp.mu.Lock()
+			n := exp.calls[token]
+			exp.mu.Unlock()
+			if n != 1 {
+				addV("C03:handler-invocations:oneway", fmt.Sprintf("%s.%s on %s: the handler was invoked %d times for one oneway call", svc.Name, mi.m.Name, legName, n), map[string]interface{}{"token": token})
+			}
+		}
+		resMu.Lock()
+		res.Calls++
+		if one != "" {
+			res.Outcomes[one+"(two server instances)"]++
+		}
+		resMu.Unlock()
+	}
+}
 
 // afterOversizeReply: on the NATS leg (the one transport whose server bounds
 // the reply) a handler returns a value that cannot travel; the caller must be
